@@ -68,13 +68,13 @@ def module_state(mod):
     return json.dumps([[n, flatten(v)] for n, v in _MODULE_STATE[id(mod)]], sort_keys=True, default=str)
 
 
-def run_one(mod, ob, values, choices, rng):
+def run_one(mod, ob, values, choices, rng, tol=None):
     from pyvc.api import ConcE, Reject, Tol
     from pyvc.runner import FRAME_CLAUSE
 
     state_before = module_state(mod)
 
-    Tol.atol, Tol.rtol = 1e-9, 1e-9
+    Tol.atol, Tol.rtol = (1e-9, 1e-9) if not tol else (float(tol[0]), float(tol[1]))
     E = ConcE(mod, values=values, rng=rng)
     E.choice_plan = choices
     E.auto = []
@@ -143,7 +143,7 @@ def main():
                 ans = {"ok": True, "runs": got, "tries": tries}
             else:
                 rng = random.Random(0)
-                r = run_one(mod, ob, req.get("values", {}), req.get("choices"), rng)
+                r = run_one(mod, ob, req.get("values", {}), req.get("choices"), rng, req.get("tol"))
                 ans = {"ok": True, "runs": [r]}
         except Exception as e:  # noqa
             ans = {"ok": False, "error": "%s: %s" % (type(e).__name__, e), "tb": traceback.format_exc()[-2000:]}
